@@ -103,3 +103,22 @@ def hourly_root(chk: Check):
                           "objective of the requested time-step method", {"case": c, "result": r})
     chk.note("hourly_sizing_roots_checked", n)
     chk.traces += n
+
+
+def hourly_report(chk: Check):
+    """C12 for the HOURLY method: after GHE.size(HOURLY) the temperatures the object reports are those of an HOURLY simulation of the
+    returned height (same objects as hourly_root)."""
+    from .core import parallel_map  # noqa: PLC0415
+
+    cases = [(2, 2, 2600.0), (1, 2, 2200.0)] if tier() == "quick" else [(2, 2, 2600.0), (1, 2, 2200.0), (1, 2, 3000.0), (2, 2, 5200.0)]
+    n = 0
+    for c, r in zip(cases, parallel_map(_hourly_root_case, cases)):
+        if "error" in r:
+            chk.violation(f"C12: GHE.size(HOURLY) on a {c[0]}x{c[1]} field raised {r['error']}", {"case": c})
+            continue
+        n += 1
+        if r["steps"] != 8760 or abs(r["reported"] - r["excess"]) > 1e-6:
+            chk.violation(f"C12: after GHE.size(HOURLY) on a {c[0]}x{c[1]} field the object reports {r['steps']} temperatures with excess {r['reported']:.6g} K; "
+                          f"an HOURLY simulation of the returned height {r['H']:.4f} m gives {r['excess']:.6g} K", {"case": c, "result": r})
+    chk.note("hourly_sizing_reports_checked", n)
+    chk.traces += n
